@@ -319,19 +319,33 @@ where
         }
         1 => {
             r.clear();
+            let u_cleared = used(&r);
             let fresh_idx = R::default().push(s[2]);
-            let i2 = r.push(s[2]);
-            vassert!(i2 == fresh_idx, "VF:collapse.after_clear_like_fresh");
-            vassert!(r.index(i2) == s[2], "VF:collapse.after_clear_read");
-            let i3 = r.push(s[2]);
+            // C11: an item equal to one pushed before the clear must be stored again, not collapsed into the old one
+            let i2 = r.push(s[1]);
+            vassert!(r.index(i2) == s[1], "VF:collapse.after_clear_read");
+            if !s[1].is_empty() {
+                vassert!(used(&r) > u_cleared, "VF:collapse.collapsed_across_clear");
+            }
+            let i3 = r.push(s[1]);
             vassert!(i3 == i2, "VF:collapse.equal_returns_previous_index");
+            // C08: and the region answers like a fresh one
+            r.clear();
+            let i4 = r.push(s[2]);
+            vassert!(i4 == fresh_idx, "VF:collapse.after_clear_like_fresh");
+            vassert!(r.index(i4) == s[2], "VF:collapse.after_clear_read");
         }
         2 => {
             let mut m = R::merge_regions(std::iter::once(&r));
+            let u_merged = used(&m);
             let fresh_idx = R::default().push(s[1]);
+            // C11: the last item of a source region is not remembered by the merged region
             let i2 = m.push(s[1]);
-            vassert!(i2 == fresh_idx, "VF:collapse.after_merge_like_fresh");
             vassert!(m.index(i2) == s[1], "VF:collapse.after_merge_read");
+            if !s[1].is_empty() {
+                vassert!(used(&m) > u_merged, "VF:collapse.collapsed_across_merge");
+            }
+            vassert!(i2 == fresh_idx, "VF:collapse.after_merge_like_fresh");
         }
         4 => {
             // clone_from into a destination with its own, different history must behave exactly like clone
@@ -445,7 +459,7 @@ pub fn harnesses() -> Vec<H> {
             bound: "OptionRegion<StringRegion>, ResultRegion<StringRegion, MirrorRegion<u8>>, TupleABRegion<StringRegion, MirrorRegion<u64>>: two pushes, each variant, owned and reference forms, twin fed owned forms", kani: false },
         H { name: "columns_ragged", props: &["C12", "C01", "C02", "C13", "C20"], nargs: 6, pre: pre_cols, doms: doms_cols, run: run_cols, panic_ok: true,
             bound: "ColumnsRegion<MirrorRegion<u8>> with IndexOptimized and Vec<usize> offsets: three rows of width 0..3 in any order, five input forms rotated over the rows, all rows re-read after every push, out-of-bounds probe at any position", kani: false },
-        H { name: "collapse_boundaries", props: &["C11", "C08", "C09"], nargs: 5, pre: pre_collapse, doms: doms_collapse, run: run_collapse, panic_ok: false,
+        H { name: "collapse_boundaries", props: &["C11", "C08", "C09", "C10"], nargs: 5, pre: pre_collapse, doms: doms_collapse, run: run_collapse, panic_ok: false,
             bound: "CollapseSequence at the top, over ConsecutiveIndexPairs, inside a tuple and inside a slice region: three strings over a 3-value domain; boundaries none / clear / merge_regions / clone / clone_from into a pre-filled destination", kani: false },
     ]
 }
